@@ -144,6 +144,39 @@ def _follows_template(func):
     return isinstance(v, ast.Subscript) and bool(chain(v.value)) and chain(v.value)[-1] == '_mapping'
 
 
+def _through_public_lookup(model, R, func, name, ret, v, self_, other):
+    """``return x.lattice[<objects built from the operands' extents>]`` with no case analysis around it.
+    Lattice.__getitem__ (read on the current tree) answers a falsy key with the *supremum*; the union (join) or intersection
+    (meet) of two extents is empty for real operands (infimum | infimum with an empty bottom extent; two disjoint atoms),
+    where the specified result is the infimum.  Decided only when that special case is present in __getitem__ and nothing
+    in the function can route the empty key elsewhere; otherwise not judged (False)."""
+    if not (isinstance(v, ast.Subscript) and chain(v.value) in ([self_, 'lattice'], [other, 'lattice'])):
+        return False
+    if any(isinstance(n, (ast.If, ast.IfExp, ast.Try, ast.BoolOp, ast.While, ast.For)) for s_ in func.body for n in ast.walk(s_)):
+        return False
+    if any(isinstance(n, (ast.IfExp, ast.BoolOp)) for n in ast.walk(v.slice)):
+        return False
+    attrs = {n.attr for n in ast.walk(v.slice) if isinstance(n, ast.Attribute) and chain(n) and chain(n)[0] in (self_, other)}
+    if not attrs & {'extent', '_extent', 'objects'} or attrs & {'intent', '_intent', 'properties'}:
+        return False
+    try:
+        gi = model.func('lattices.CollectionMixin.__getitem__')
+    except Exception:
+        return False
+    kparam = gi.params[1] if len(gi.params) > 1 else None
+    special = [s_ for s_ in gi.body if isinstance(s_, ast.If) and isinstance(s_.test, ast.UnaryOp) and isinstance(s_.test.op, ast.Not)
+               and isinstance(s_.test.operand, ast.Name) and s_.test.operand.id == kparam
+               and len(s_.body) == 1 and isinstance(s_.body[0], ast.Return) and chain(s_.body[0].value) == [gi.params[0], 'supremum']]
+    if not special:
+        return False
+    R.bad('BOUNDS', func, ret, f'{name}: the empty combination of extents is looked up as an extent',
+          f'{self_}.lattice._mapping[closure] (the mapping has no special keys)',
+          f'{src(v)[:90]}: Lattice.__getitem__ returns the supremum for an empty key (concepts/lattices.py:{special[0].lineno})',
+          extra={'consequence': ('infimum | infimum' if name == 'join' else 'the meet of two concepts with disjoint extents')
+                 + ' has an empty key when the bottom extent is empty and comes back as the top concept'})
+    return True
+
+
 def _is_intersection(term):
     """term == AND of a subset of {a, b, U, Z} as a Boolean function"""
     import itertools
@@ -184,6 +217,8 @@ def binary(model, R):
             continue
         v = env.expand(rets[0].value)
         if not (isinstance(v, ast.Subscript) and chain(v.value) and chain(v.value)[-1] == '_mapping'):
+            if _through_public_lookup(model, R, func, name, rets[0], v, self_, other):
+                continue
             R.unknown('BOUNDS', func, rets[0], name, f'result is not a mapping lookup: {src(v)[:80]}')
             continue
         root = chain(v.value)
